@@ -13,7 +13,10 @@ package main
 //  which=2  checkInputBytes alone: case = (max cut #bytes)  obs = (ok cutoff #out)
 //  which=3  several jobs per worker.work call (shared accumBuf / readBuf): case = (w sched (filecase ...)),
 //           obs = one which-w observable per file; see c06ExecMulti and coq/Model/Worker.v (c06_multi)
-//  which=4,5 histories with maintenance ticks, truncation, rename / rotation (emit format of which 0 / 1): see maint.go
+//  which=4,5 histories with maintenance ticks, truncation, rename / rotation (emit format of which 0 / 1): see maint.go;
+//           jobs made / notified by the real provider code, remove_after: see realjob.go
+//  which=6,7 compressed (lz4) jobs: see realjob.go
+//  which=8   the real Pipeline.In behind the worker, observed at the output plugin: see e2e.go
 //  a which-0/1 case may carry a 6th item `base`: the file starts with a hole of base bytes (sparse), all offsets shift
 
 import (
@@ -161,6 +164,12 @@ func c06Exec(which int, cs hx.Sx) hx.Sx {
 	}
 	if which == 4 || which == 5 {
 		return c06ExecHist(which, cs)
+	}
+	if which == 6 || which == 7 {
+		return c06ExecLz4(which, cs)
+	}
+	if which == 8 {
+		return c06ExecE2E(cs)
 	}
 	if which == 2 {
 		max := int(hx.Int(it[0]))
@@ -646,6 +655,12 @@ func c06Gen(c *hmain.Ctx) {
 
 	// 8. histories with the maintenance of the job (which = 4 | 5), see maint.go
 	c06GenHist(c, cfgs, bufs, randContent, randCfg)
+
+	// 9. / 10. jobs made and notified by the real provider code, remove_after, compressed jobs (which = 4 .. 7), see gen_real.go
+	c06GenReal(c, cfgs, bufs, randContent, randCfg)
+
+	// 11. end to end: the real Pipeline.In of a started pipeline behind the worker (which = 8), see e2e.go
+	c06GenE2E(c, cfgs, bufs, randContent)
 }
 
 func bitLen(x int64) int {
@@ -658,7 +673,7 @@ func bitLen(x int64) int {
 
 func main() {
 	hmain.Run(&hmain.Prop{ID: "C06",
-		Rule: "exhaustive: every content over {a,b,\\n} up to the tier's length x every split into two appends (one worker pass after each) x read buffer 1..4 x (max_event_size, cut_off) in {(0,-),(2,skip),(2,cut),(3,skip),(3,cut)}; random files with lines >> buffer, empty lines, 1..5 passes, resume offsets, tail mode, buffer-aligned line ends, checkInputBytes alone; several jobs per worker.work call (shared buffers), sparse files with resume offsets beyond 2^32; histories with ticks of the real jobProvider.maintenanceJob at every position (exhaustive small scope, directed over all swept read buffer sizes, random) incl. truncation, rename and rotation. Non-trivial = content has a newline (exhaustive), or newline and >= 2 passes (random), non-empty prefix (tail-mode), input longer than the limit (check-input); distinct = distinct (sub-model, case) text.",
+		Rule: "exhaustive: every content over {a,b,\\n} up to the tier's length x every split into two appends (one worker pass after each) x read buffer 1..4 x (max_event_size, cut_off) in {(0,-),(2,skip),(2,cut),(3,skip),(3,cut)}; random files with lines >> buffer, empty lines, 1..5 passes, resume offsets, tail mode, buffer-aligned line ends, checkInputBytes alone; several jobs per worker.work call (shared buffers), sparse files with resume offsets beyond 2^32; histories with ticks of the real jobProvider.maintenanceJob at every position (exhaustive small scope, directed over all swept read buffer sizes, random) incl. truncation, rename and rotation; round 5: jobs made by the real addJob in every offsets_op mode / with saved offsets / through a symlink, real write notifications (truncation seen before the pass), ticks with remove_after expired, compressed (lz4) jobs resumed from saved offsets (exhaustive small scope + directed + random each), the real Pipeline.In behind the worker observed at the output (exhaustive small scope + random). Non-trivial = content has a newline (exhaustive), or newline and >= 2 passes (random), non-empty prefix (tail-mode), input longer than the limit (check-input); distinct = distinct (sub-model, case) text.",
 		Gen:  c06Gen, Exec: c06Exec})
 	if c06Dir != "" {
 		os.RemoveAll(c06Dir) // also after -replay
